@@ -21,7 +21,7 @@ ANCHORS = ["prov.model:ProvRecord.copy", "prov.model:ProvBundle.add_record", "pr
            "prov.model:ProvDocument.add_bundle", "prov.model:ProvDocument.flattened", "prov.model:ProvDocument.update", "prov.model:ProvBundle.update",
            "prov.model:ProvBundle.__init__", "prov.model:NamespaceManager.__init__"]
 DERIVE = ["copy", "add_record", "add_record_same_document", "update_self", "ctor", "update", "add_bundle_doc", "unified", "bundle_unified",
-          "flattened", "json", "xml", "rdf"]
+          "flattened", "json", "xml", "rdf", "deepcopy"]
 MUTATORS = ["add_attribute", "add_value", "add_formal", "add_record", "add_namespace", "set_default", "add_bundle"]
 
 
@@ -231,6 +231,9 @@ def judge(ctx, idx, case):
                     continue
                 i = r.randrange(n)
                 pairs = [(src._records[i], src._records[n + i])]
+            elif dname == "deepcopy":
+                import copy as _copy
+                pairs = [(src, _copy.deepcopy(src))]
             elif dname == "ctor":
                 pairs = [(src, pm.ProvDocument(records=src.get_records(), namespaces=list(src.namespaces)))]
             elif dname == "update":
